@@ -583,6 +583,10 @@ pub fn c07(id: &str, f: &Forest, r: &[(CompressionType, Enc)], out: &mut Vec<Str
             }
         }
     }
+    if f.opt("rootdup").is_some() {
+        // repeated / overlapping roots: determinism only (what such a file means is outside the round-trip properties)
+        return;
+    }
     // (b) save(load(save d)) = save d, and again
     for (c, e) in r {
         if let Enc::Bytes(b) = e {
